@@ -1,3 +1,3 @@
 SPECIFICATION Spec
-INVARIANT Inv
+INVARIANTS Inv FullInv
 CHECK_DEADLOCK FALSE
